@@ -100,12 +100,12 @@ def _renumber_term(t, lmap, bmap):
     return t2
 
 
-def _inline_one(caller, bi, callee):
-    """Splice `callee` (raw body json) into `caller` at the call terminating block bi."""
-    call = caller["blocks"][bi]["term"]
+def splice(caller, callee, arg_rvalues, dest, cont, span):
+    """Append a renumbered copy of `callee`'s blocks to `caller`.  Parameters 1..n are bound from `arg_rvalues`
+    (rvalue json in the caller's numbering), the return place is mapped onto `dest` (a place of the caller),
+    `return` becomes a jump to `cont`.  Returns (entry block index, [binding statements to execute before entry])."""
     base_l = len(caller["locals"])
     base_b = len(caller["blocks"])
-    dest = call["dest"]
     direct_ret = not dest["p"]
 
     def lmap(l):
@@ -116,20 +116,16 @@ def _inline_one(caller, bi, callee):
     def bmap(b):
         return base_b + b
 
-    # locals
     for l in callee["locals"]:
         caller["locals"].append(copy.deepcopy(l))
-    # parameter binding
-    span = call.get("span", {"s": "", "x": False})
     binds = []
-    for i, a in enumerate(call["args"]):
+    for i, rv in enumerate(arg_rvalues):
         if i + 1 > callee["arg_count"]:
             break
         binds.append({"k": "assign", "place": {"l": base_l + 1 + i, "p": [], "ty": callee["locals"][1 + i]["ty"]},
-                      "rv": {"k": "use", "op": copy.deepcopy(a)}, "span": span, "inline_bind": True})
-    cont = call["t"]
+                      "rv": copy.deepcopy(rv), "span": span, "inline_bind": True})
     nb = len(callee["blocks"])
-    # for a projected destination a glue block after the helper's blocks stores the result
+    # for a projected destination a glue block after the callee's blocks stores the result
     glue = base_b + nb if (not direct_ret and cont is not None) else cont
     new_blocks = []
     for bl in callee["blocks"]:
@@ -149,16 +145,23 @@ def _inline_one(caller, bi, callee):
             "stmts": [{"k": "assign", "place": copy.deepcopy(dest),
                        "rv": {"k": "use", "op": {"l": base_l, "p": [], "ty": callee["locals"][0]["ty"], "k": "move"}}, "span": span}],
             "term": {"k": "goto", "t": cont, "span": span}, "cleanup": False, "inlined_from": callee["def"]})
-    # the call block now binds the parameters and jumps into the helper
-    caller["blocks"][bi]["stmts"].extend(binds)
-    caller["blocks"][bi]["term"] = {"k": "goto", "t": base_b, "span": span, "inlined_call": callee["def"],
-                                    "orig_call": {"callee": call["callee"], "resolved": call.get("resolved")}}
-    # debug names of the helper's locals
     for d in callee.get("debug", []):
         p = d.get("place")
         if p:
             caller.setdefault("debug", []).append({"name": d["name"], "place": _renumber(p, lmap, bmap)})
     caller.setdefault("inlined", []).append(callee["def"])
+    return base_b, binds
+
+
+def _inline_one(caller, bi, callee):
+    """Splice `callee` (raw body json) into `caller` at the call terminating block bi."""
+    call = caller["blocks"][bi]["term"]
+    span = call.get("span", {"s": "", "x": False})
+    entry, binds = splice(caller, callee, [{"k": "use", "op": a} for a in call["args"]], call["dest"], call["t"], span)
+    # the call block now binds the parameters and jumps into the helper
+    caller["blocks"][bi]["stmts"].extend(binds)
+    caller["blocks"][bi]["term"] = {"k": "goto", "t": entry, "span": span, "inlined_call": callee["def"],
+                                    "orig_call": {"callee": call["callee"], "resolved": call.get("resolved")}}
 
 
 def inline_helpers(bodies, known):
